@@ -53,6 +53,24 @@ def install_printer_hook():
     _HOOK["installed"] = True
 
 
+class no_safety_checks:
+    """The round trip tests printer and parser, not the front end's safety analyses:
+    bounds and aliasing checks (conservative, and C03/C04's business) are switched off
+    while the printed text is parsed again."""
+
+    def __enter__(self):
+        import exo.API as A
+
+        self.A = A
+        self.saved = (A.CheckBounds, A.Check_Aliasing)
+        A.CheckBounds = lambda proc: None
+        A.Check_Aliasing = lambda proc: None
+
+    def __exit__(self, *a):
+        self.A.CheckBounds, self.A.Check_Aliasing = self.saved
+        return False
+
+
 def module_text_for(proc_ir, configs_src):
     """source of a scratch module in which str(proc) can be parsed again; None when impossible"""
     procs = list(walk_procs(proc_ir).values())
@@ -145,13 +163,19 @@ class PrintMonitor(Monitor):
             ctx.stat("roundtrip.not_expressible")
             return
         try:
-            mod = load_program(mt, ctx.scratch, tag="rt")
+            with no_safety_checks():
+                mod = load_program(mt, ctx.scratch, tag="rt")
             P2 = getattr(mod, str(ir.name))
         except CaseTimeout:
             raise
         except Exception as e:
             # the printed text is not accepted by the front end
             msg = str(e)
+            if "does not depend on loop iterations" in msg:
+                # the type checker forbids configuration writes under loops in source
+                # programs; scheduling may create them: not expressible in the surface syntax
+                ctx.stat("roundtrip.not_expressible_config_write_in_loop")
+                return
             from ..gen_input import gen_input
 
             if "unsatisfiable" in msg and gen_input(ir, ctx.rng, tries=60) is None:
